@@ -862,3 +862,4 @@ package process
 //@   callsite[C07] C07.cutBody process.Form.typecheckForm#3: arg0 == p.body && arg1 == gammaLeftNameTypesCtx && arg2 == addr(p, NewForm, new_name_c) && arg3 == p.new_name_c.Type
 //@   callsite[C07] C07.cutCont process.Form.typecheckForm#4: arg0 == p.continuation_e && arg2 == providerShadowName && arg3 == providerType && arg1[p.new_name_c.Ident].Type == p.new_name_c.Type
 
+
